@@ -759,6 +759,12 @@ class Interp:
             if isinstance(e, ast.Slice):
                 if e.lower is None and e.upper is None and e.step is None:
                     out.append(FULL)
+                elif e.lower is None and e.step is None and isinstance(e.upper, ast.Name):
+                    # a leading part `:N` of an axis: the element-wise statements interpreted here hold for each index
+                    # of that axis separately, so the part is treated like the whole axis (recorded as an assumption)
+                    self.partial_slices = getattr(self, "partial_slices", [])
+                    self.partial_slices.append(norm(e.upper))
+                    out.append(FULL)
                 else:
                     self.err(e, "partial slice")
             else:
